@@ -519,6 +519,15 @@ def exec_for_invariant(engine, ctx, st: ast.For, env: Env, it, inv):
         raise EngineLimit("invariant loop over %r" % (it,))
     label = "%s/loop%d" % (short(ctx.func), loop_ordinal(env, st))
     modified = [n for n in assigned_names(st.body) if n in env.vars]
+    has_yield = any(isinstance(n, (ast.Yield, ast.YieldFrom)) for b in st.body for n in ast.walk(b))
+    if has_yield and ctx.inline_depth == 0:
+        # yields inside the loop: the sequence of yielded values becomes symbolic (count + per-component arrays)
+        if getattr(ctx, "ysym", None) is None:
+            ctx.ysym = V.YieldSeq(ctx)
+            for v in ctx.yielded:
+                ctx.ysym.push(v)
+    elif has_yield:
+        raise EngineLimit("yield inside a loop of an inlined generator")
 
     def inv_clauses(i):
         d_ = {k: v for k, v in env.vars.items()}
@@ -526,7 +535,8 @@ def exec_for_invariant(engine, ctx, st: ast.For, env: Env, it, inv):
         # depending on what the code calls it
         d_.update(i=i, seq=it, lo=lo, hi=hi, ctx=ctx, carried={k: env.vars[k] for k in modified if k in env.vars},
                   enclosing=list(getattr(ctx, "loop_elems", [])),  # current elements of the enclosing invariant loops
-                  old=getattr(ctx, "entry_old", None))  # pre-state of the function (see symexec.make_old_view)
+                  old=getattr(ctx, "entry_old", None),  # pre-state of the function (see symexec.make_old_view)
+                  yielded=getattr(ctx, "ysym", None))  # symbolic sequence of the values yielded so far (generators)
         ns = NS(**d_)
         trig = getattr(inv, "triggers", None)
         if trig is not None:
@@ -576,6 +586,8 @@ def exec_for_invariant(engine, ctx, st: ast.For, env: Env, it, inv):
     for vn in locally_mutated_containers(st.body):
         if vn not in kinds and isinstance(env.vars.get(vn), (PyList, PyDict)):
             env.vars[vn] = V.Opaque("container built in a loop over a symbolic domain")
+    if has_yield:
+        ctx.ysym.havoc()
     i = ctx.fresh("iter", z3.IntSort())
     ctx.assume(i >= lo)
     which = ctx.choose(2)
